@@ -1,7 +1,9 @@
 """Implementation-side runner for C07: angles, dihedrals and named torsions through mdtraj's public API.
 
 stdin : {"inputs": npz, "outputs": npz, "geom": [{"id": k, "has_box": bool, "ops": [{"op": "angles"|"dihedrals",
-         "opt": bool, "periodic": bool}]}], "topo": [{"id": k, "chains": [[{"name": resname, "atoms": [names]}]]}]}
+         "opt": bool, "periodic": bool}]}], "topo": [{"id": k, "chains": [[{"name": resname, "atoms": [names]}]], "steps": [[edit, ...], ...]}]}
+        (edits: rename_atom i name | rename_residue r name | delete_atom i | add_atom r name | add_chain [residues];
+         the named torsions are recomputed on the SAME Topology object after every step -> "history")
         arrays: g<k>_xyz (F,n,3) float32, g<k>_idx (m,3|4) int, g<k>_box (F,3,3) float32 (rows = cell vectors)
 stdout: last line {"errors": {...}, "topo": {k: {"indices": {name: [[...]]}, "compute_equal": bool}}}; arrays g<k>_o<j>.
 Only mdtraj is exercised here; all comparisons happen in harness/props/C07.py.
@@ -45,6 +47,49 @@ def build_top(chains):
     return top
 
 
+ELEMENTS = {"C": md.element.carbon, "N": md.element.nitrogen, "O": md.element.oxygen, "S": md.element.sulfur,
+            "H": md.element.hydrogen}
+
+
+def apply_edit(top, ed):
+    """in-place edits of a Topology through its public objects/methods"""
+    k = ed[0]
+    if k == "rename_atom":
+        top.atom(ed[1]).name = ed[2]
+    elif k == "rename_residue":
+        top.residue(ed[1]).name = ed[2]
+    elif k == "delete_atom":
+        top.delete_atom_by_index(ed[1])
+    elif k == "add_atom":
+        top.add_atom(ed[2], ELEMENTS.get(ed[2][0], md.element.carbon), top.residue(ed[1]))
+    elif k == "add_chain":
+        ch = top.add_chain()
+        for r in ed[1]:
+            res = top.add_residue(r["name"], ch)
+            for a in r["atoms"]:
+                top.add_atom(a, ELEMENTS.get(a[0], md.element.carbon), res)
+    else:
+        raise ValueError("unknown edit %r" % (ed,))
+
+
+def named(top, rs):
+    ind = {nm: np.asarray(getattr(dih, "indices_" + nm)(top)).reshape(-1, 4).astype(int).tolist() for nm in NAMES}
+    t = md.Trajectory(rs.randn(2, top.n_atoms, 3).astype(np.float32), top)
+    same = t.topology is top
+    for nm in NAMES:
+        i2, ang = getattr(md, "compute_" + nm)(t)
+        i2 = np.asarray(i2).reshape(-1, 4).astype(int).tolist()
+        if i2 != ind[nm]:
+            same = False
+        if len(i2):
+            ref = md.compute_dihedrals(t, np.array(i2))
+            if ang.shape != ref.shape or not np.array_equal(np.asarray(ang), np.asarray(ref)):
+                same = False
+        elif np.asarray(ang).shape != (2, 0):
+            same = False
+    return {"indices": ind, "compute_equal": same}
+
+
 def main():
     req = json.loads(sys.stdin.read())
     data = np.load(req["inputs"]) if req.get("geom") else {}
@@ -83,6 +128,14 @@ def main():
                 elif np.asarray(ang).shape != (2, 0):
                     same = False
             topo_out[str(k)] = {"indices": ind, "compute_equal": same}
+            if c.get("steps"):
+                # history on ONE Topology object: calls interleaved with in-place edits
+                hist = []
+                for step in c["steps"]:
+                    for ed in step:
+                        apply_edit(top, ed)
+                    hist.append(named(top, rs))
+                topo_out[str(k)]["history"] = hist
         except Exception as e:
             errors["t%d" % k] = "%s: %s" % (type(e).__name__, str(e)[:300])
     if req.get("geom"):
